@@ -1,5 +1,5 @@
 /-
-Driver/RenderStage.lean — records `RND S` / `RND M` (harness stage `render`): replay the build
+Driver/RenderStage.lean — records `RND S` / `RND M` / `RND G` (harness stage `render`): replay the build
 exactly as `handleE2E` does (same `buildTL`, same comparison with the dump), then compare the
 model's rendering `Render.dotTxt` of the MODEL automaton with the real `dot_string()`, code
 point by code point.
@@ -9,7 +9,9 @@ The only thing taken from the dump for the rendering is the order in which each 
 a permutation of the model's).
 -/
 import Driver.E2E
+import Driver.PG
 import PmVerif.Model.Render
+import PmVerif.Model.RenderPG
 namespace Drv
 open Pm
 
@@ -107,6 +109,10 @@ def handleRND : Parser String
   | "M" :: ts =>
     handleRender matE2E Render.matKeyTxt Render.charPredTxt
       (fun p => p.flatMap fun row => row.filterMap fun c => c.bind charVarLit) ts
+  -- port graphs: same replay as `handleE2E pgE2E` (the record carries no hosts), then
+  -- `Render.pgDotTxt` (= `dotTxt pgKeyTxt pgPredTxt`) against the real text
+  | "G" :: ts =>
+    handleRender pgE2E Render.pgKeyTxt Render.pgPredTxt (fun _ => []) ts
   | _ => none
 
 end Drv
